@@ -1,8 +1,9 @@
 (* C05 One decision per height, quiescence until Reset (node model, all reachable states, all scripts).
-   Proved here: the hand-over and broadcast clauses. The clean re-initialisation / cache clauses are exercised by the
-   correspondence run and the C05 monitors (DESIGN.md C05). *)
+   Proved here: the hand-over and broadcast clauses. The re-initialisation and early-payload clauses are local theorems at the end of this file; that the
+   kept payloads are then replayed, and that nothing else of earlier heights influences later decisions, is exercised by the
+   correspondence run and the C05 monitors. *)
 From Coq Require Import ZArith List.
-From DbftV Require Import Gates P11.
+From DbftV Require Import Gates P11 P05.
 Open Scope Z_scope.
 
 (* the block-acceptance callback is invoked only while no block has been accepted since the last (re)initialisation at
@@ -45,3 +46,27 @@ Theorem payload_after_the_decision_only_notes_the_sender cfg ic msg s0 :
      (fun _ s tr => (exists l, s = s0 <| LastSeenMessage := l |>) /\ Forall (fun sc => exists b, snd sc = CWatchOnly b) tr).
 Proof. exact (payload_after_the_decision cfg ic msg s0). Qed.
 Print Assumptions payload_after_the_decision_only_notes_the_sender.
+
+(* clean re-initialisation (every state): a Reset / Start asks the application for the previous hash, the height, the
+   validator list and the time per block, in that order, and - before it replays what was kept for the new height - leaves
+   the node at the ledger's next height, view 0, with exactly those values, its own index and key as the key-pair callback
+   answered, every payload table empty and sized to the new validator list, no proposal, transactions, header or block,
+   nothing decided, no subscription *)
+Theorem reset_takes_everything_afresh cfg ts s0 :
+  hx s0 (reset cfg 0 ts) (fun _ s tr =>
+    exists ph h vs tpb i k rest,
+      map snd tr = CPrevHash ph :: CHeight h :: CValidators vs :: CTimePerBlock tpb :: rest /\
+      In (CKeyPair i k) rest /\ fresh_epoch s ph h vs tpb i k /\ lastBlockTimestamp s = ts).
+Proof. exact (reset_at_view_0_takes_everything_afresh cfg ts s0). Qed.
+Print Assumptions reset_takes_everything_afresh.
+
+(* a payload received early for a later height is kept for that height and changes nothing else (every state) *)
+Theorem early_payload_for_a_later_height_is_kept cfg ic msg s0 :
+  p_idx msg < N s0 -> BlockIndex s0 < p_height msg -> cache_ready s0 = true ->
+  hx s0 (OnReceive cfg ic msg) (fun _ s tr =>
+    tr = [] /\
+    let old := match assoc_get (cache s0) (p_height msg) with Some x => x | None => empty_inbox end in
+    s = s0 <| cache := assoc_put (cache s0) (p_height msg) (inbox_with old msg) |> /\
+    assoc_get (cache s) (p_height msg) = Some (inbox_with old msg)).
+Proof. exact (future_height_payload_is_kept cfg ic msg s0). Qed.
+Print Assumptions early_payload_for_a_later_height_is_kept.
